@@ -826,11 +826,18 @@ where
                     },
                 };
                 let x = match &w.parked[t] {
-                    Some(Pending::Acc { weak: true }) => {
+                    Some(Pending::Acc { weak: true, .. }) => {
                         if !is_script && rng.below(100) < spur {
                             1
                         } else {
                             0
+                        }
+                    }
+                    Some(Pending::Acc { stale: Some(c), .. }) if policy == "stale" => {
+                        // answer the Relaxed first read with a value the storage held earlier
+                        match w.store_hist.get(*c) {
+                            Some(h) if !h.is_empty() && rng.below(100) < 60 => 2 + h[rng.below(h.len() as u64) as usize] as u64,
+                            _ => 0,
                         }
                     }
                     Some(Pending::Alloc) => {
